@@ -5,7 +5,7 @@ ID = "C18"
 LEVEL = "fault_enumeration"
 FLAVOUR = "plain"
 TIMEOUT = 300
-RULE = ("rejection kind (13: unsupported dtype, non-text column name, duplicate names, None under has_nulls=False, "
+RULE = ("rejection kind (13 + 8 read-side variants + up to 15 further variants of the listed kinds: unsupported dtype, non-text column name, duplicate names, None under has_nulls=False, "
         "unencodable object values [mixed types; int where utf8 declared], append with different columns / file "
         "scheme / partitioning, unknown column in columns= and in filters=, unknown codec, bad times, bad "
         "object_encoding) x position of the offending column {first, middle, last} x position of the offending row "
@@ -21,7 +21,13 @@ ASSUMPTIONS = ["orphan files left by a rejected call are allowed here (C09 forbi
 DATASETS = ["simple1", "simple3", "hive", "hive_part"]
 WRITE_REJECTIONS = ["complex_dtype", "int_colname", "dup_names", "none_required", "mixed_object", "int_as_utf8",
                     "diff_columns", "diff_scheme", "diff_partition", "bad_codec", "bad_times", "bad_object_encoding"]
-READ_REJECTIONS = ["unknown_column", "unknown_filter_column"]
+READ_REJECTIONS = ["unknown_column", "unknown_filter_column", "unknown_index", "unknown_category", "head_unknown",
+                   "iter_unknown", "count_unknown_filter", "rowfilter_unknown"]
+# further variants of the listed kinds (thorough tier; EXTRA_QUICK also in the quick tier)
+EXTRA_UPFRONT = ["period_dtype", "interval_dtype", "object_sets", "tuple_colname", "none_colname", "bytes_colname",
+                 "extra_column", "missing_column", "partition_missing_col"]
+EXTRA_LATE = ["Int64_na_required", "boolean_na_required", "decl_int_str", "decl_bytes_str", "json_set", "decimal_str"]
+EXTRA_QUICK = ["period_dtype", "tuple_colname", "extra_column", "missing_column", "Int64_na_required", "json_set"]
 # rejections that can surface while columns are being written (after bytes have gone to the file)
 LATE = ("complex_dtype", "none_required", "mixed_object", "int_as_utf8", "bad_codec")
 BIG = 600
@@ -46,6 +52,20 @@ def points(tier):
                             # a frame large enough for the failed write to have gone past the old footer's length
                             pts.append({"ds": ds, "rej": rej, "mode": mode, "colpos": colpos, "rowpos": rowpos,
                                         "size": BIG})
+        for rej in EXTRA_UPFRONT + EXTRA_LATE:
+            if tier != "thorough" and rej not in EXTRA_QUICK:
+                continue
+            for mode in ("append", "replace"):
+                if mode == "replace" and rej in ("extra_column", "missing_column"):
+                    continue
+                if mode == "append" and rej in ("period_dtype", "interval_dtype", "object_sets"):
+                    # an append converts with the stored schema and does not look at the new frame's dtypes: these
+                    # are refusals of a fresh write only
+                    continue
+                for colpos in (("first", "last") if rej in EXTRA_LATE or rej.endswith("_dtype") or rej == "object_sets" else ("first",)):
+                    pts.append({"ds": ds, "rej": rej, "mode": mode, "colpos": colpos, "rowpos": "rg0"})
+                    if rej in EXTRA_LATE and tier == "thorough":
+                        pts.append({"ds": ds, "rej": rej, "mode": mode, "colpos": colpos, "rowpos": "later", "size": BIG})
         for rej in READ_REJECTIONS:
             pts.append({"ds": ds, "rej": rej, "mode": "read", "colpos": "first", "rowpos": "rg0"})
     return pts
@@ -135,6 +155,36 @@ def offending(rej, colpos, rowpos, n=6):
         kw["times"] = "int128"
     elif rej == "bad_object_encoding":
         kw["object_encoding"] = "nonsense"
+    elif rej == "period_dtype":
+        df[target] = pd.Series(pd.period_range("2020-01", periods=n, freq="M"))
+    elif rej == "interval_dtype":
+        df[target] = pd.Series(pd.interval_range(0, n))
+    elif rej == "object_sets":
+        df[target] = pd.Series([{i} for i in range(n)], dtype=object)
+    elif rej == "tuple_colname":
+        df = df.rename(columns={"a": ("a", "x")})
+    elif rej == "none_colname":
+        df = df.rename(columns={"a": None})
+    elif rej == "bytes_colname":
+        df = df.rename(columns={"a": b"a"})
+    elif rej == "extra_column":
+        df = df.assign(zz=1)
+    elif rej == "missing_column":
+        df = df.drop(columns=["c"])
+    elif rej == "partition_missing_col":
+        kw["file_scheme"] = "hive"
+        kw["partition_on"] = ["nope"]
+    elif rej in ("Int64_na_required", "boolean_na_required"):
+        vals = [None if i == row else (i if rej[0] == "I" else bool(i % 2)) for i in range(n)]
+        df[target] = pd.array(vals, dtype="Int64" if rej[0] == "I" else "boolean")
+        kw["has_nulls"] = False
+    elif rej in ("decl_int_str", "decl_bytes_str", "json_set", "decimal_str"):
+        col = pd.Series(["v%d" % i for i in range(n)], dtype=object)
+        if rej == "json_set":
+            col = pd.Series([{"k": i} for i in range(n)], dtype=object)
+            col[row] = {1, 2}
+        df[target] = col
+        kw["object_encoding"] = {"decl_int_str": "int", "decl_bytes_str": "bytes", "json_set": "json", "decimal_str": "decimal"}[rej]
     return df, kw
 
 
@@ -163,15 +213,30 @@ def run(p):
         try:
             if rej == "unknown_column":
                 pf.to_pandas(columns=["a", "nope"])
-            else:
+            elif rej == "unknown_filter_column":
                 pf.to_pandas(filters=[("nope", ">", 1)])
+            elif rej == "unknown_index":
+                pf.to_pandas(index="nope")
+            elif rej == "unknown_category":
+                pf.to_pandas(categories=["nope"])
+            elif rej == "head_unknown":
+                pf.head(1, columns=["nope"])
+            elif rej == "iter_unknown":
+                list(pf.iter_row_groups(columns=["b", "nope"]))
+            elif rej == "count_unknown_filter":
+                pf.count(filters=[("nope", "==", 1)])
+            else:
+                pf.to_pandas(filters=[("nope", "==", 1)], row_filter=True)
             return bad("not_rejected", "%s did not raise" % rej)
         except Exception:
             pass
         try:
+            from mc import oracles as O
             again = pf.to_pandas()
-            if len(again) != len(before):
-                return bad("handle_damaged", "after the rejected read the handle returns %d rows, had %d" % (len(again), len(before)))
+            rows = sorted(zip(O.series_to_list(again["a"]), O.series_to_list(again["b"]), O.series_to_list(again["c"]),
+                              [int(x) for x in O.series_to_list(again["p"])]))
+            if rows != before:
+                return bad("handle_damaged", "after the rejected read the handle returns %d rows differing from the %d before" % (len(again), len(before)))
         except Exception as e:
             return bad("handle_damaged", "after the rejected read the handle raises %s: %s" % (type(e).__name__, e))
         return {"ok": True, "outcome": "rejected_intact", "nontrivial": True}
@@ -189,11 +254,12 @@ def run(p):
     if rej == "bad_times" and mode == "append":
         # append ignores `times` (documented): nothing to reject
         return {"ok": True, "outcome": "not_applicable", "nontrivial": False}
-    if rej in ("bad_object_encoding", "none_required", "mixed_object", "int_as_utf8") and mode == "append":
+    if rej in ("bad_object_encoding", "none_required", "mixed_object", "int_as_utf8", "Int64_na_required",
+               "boolean_na_required", "decl_int_str", "decl_bytes_str", "json_set", "decimal_str") and mode == "append":
         # has_nulls / object_encoding are ignored when appending (documented): use the stored schema
         wkw.pop("has_nulls", None)
         wkw.pop("object_encoding", None)
-        if rej in ("bad_object_encoding", "none_required"):
+        if rej not in ("mixed_object", "int_as_utf8", "json_set"):
             return {"ok": True, "outcome": "not_applicable", "nontrivial": False}
     if wkw.get("file_scheme") == "simple":
         wkw.pop("partition_on", None)
